@@ -187,8 +187,9 @@ func (s *Server) ServeHTTP(w http.ResponseWriter, r *http.Request) {
 
 	q := r.URL.Query()
 
-	// Skip protocol version check for WebTransport
-	if r.ProtoMajor != 3 {
+	// Skip protocol version check for WebTransport (the CONNECT request of a WebTransport session has no query).
+	// Other HTTP/3 requests (polling over HTTP/3) are checked as usual.
+	if !isWebTransportRequest(r) {
 		version, err := strconv.Atoi(q.Get("EIO"))
 		if err != nil {
 			writeServerError(w, ErrorUnsupportedProtocolVersion)
@@ -222,16 +223,21 @@ func (s *Server) ServeHTTP(w http.ResponseWriter, r *http.Request) {
 	}
 }
 
+// Is this the extended CONNECT request (over HTTP/3) that establishes a WebTransport session?
+func isWebTransportRequest(r *http.Request) bool {
+	return r.ProtoMajor == 3 && r.Method == "CONNECT"
+}
+
 func (s *Server) handleHandshake(w http.ResponseWriter, r *http.Request) {
 	q := r.URL.Query()
 	n := q.Get("transport")
 	supportsBinary := q.Get("b64") == ""
 
-	if r.Method != "GET" && r.ProtoMajor != 3 {
-		writeServerError(w, ErrorBadHandshakeMethod)
-		return
-	} else if r.Method == "CONNECT" && r.ProtoMajor == 3 && n == "" {
+	if isWebTransportRequest(r) && n == "" {
 		s.onWebTransport(w, r)
+		return
+	} else if r.Method != "GET" {
+		writeServerError(w, ErrorBadHandshakeMethod)
 		return
 	}
 
